@@ -50,7 +50,7 @@ def check(prog, rep):
                 continue  # not supported on shallow trees either (C01/C02/C04 report that)
             ok = hi is not None or _default_is_conservative(label, di)
             rep.ob("R15.1", f"{i.name}", ok,
-                   f"{k}: handled by both siblings" if hi is not None else (f"{k}: conservative default ({label})" if ok else
+                   f"{k}: handled by both siblings" if hi is not None else (f"{k}: handed to the recursive sibling / conservative default ({label})" if ok else
                    f"{k} is handled by {r.name} (line {hr.lineno}) but {i.name} has no arm for it: the same formula works on a shallow tree and raises once the tree is deep enough to switch algorithms"),
                    loc=f"{i.module.rel}:{hi.lineno if hi is not None else i.node.lineno}", detail=f"kind:{k}")
         # ---- operator strings
@@ -92,7 +92,7 @@ def check(prog, rep):
     if gradient_arm_terms is not None:
         tr = gradient_arm_terms(prog, prog.func(PAIRS[0][1]))
         ti = gradient_arm_terms(prog, prog.func(PAIRS[0][2]))
-        for key in sorted(k for k in set(tr) & set(ti) if not k.endswith('@line')):
+        for key in sorted(k for k in set(tr) & set(ti) if not k.endswith('@line') and not k.startswith('@')):
             same = tr[key].eq(ti[key])
             rep.ob("R15.2", f"gradient[{key}]", same, "recursive and iterative walker build the same derivative term" if same else f"the two walkers build different derivative terms for {key}", loc=prog.func(PAIRS[0][2]).loc, detail="term")
 
@@ -224,6 +224,9 @@ def _registry_first(fi, in_loop=False):
 
 
 def _default_is_conservative(label, disp):
+    if label == "evaluator":
+        # unknown (non-deep) node kinds are handed to the recursive sibling
+        return any(isinstance(c, ast.Call) and dotted(c.func) == "_build_evaluator" and c.args and src(c.args[0]) == disp.subject for st in disp.default for c in ast.walk(st))
     if label == "degree":
         s = src(disp.default)
         return "append(None)" in s or "return None" in s
